@@ -27,6 +27,7 @@ RULE = ("(1) decode: every 16-bit statusword (exhaustive); (2) transitions: all 
         "thorough) over SDO and RPDO. Signature = (workload, start, target, delay, transport) / (mode, supported?); all "
         "transition cases with start != target are non-trivial.")
 RULE += (" " + 'Widened later: histories on one node object and one drive (spontaneous faults, persisting fault causes, power cycles), quick stop that ends by itself, PDO event timers, frames stamped 0.0, signalled reception under an exit gate, non-termination guard judged on logical evidence; automatic-transition delays {0,1,2,3,4,6} in quick and up to 12 in thorough.')
+RULE += (" " + "Widened later: the full 16-bit statusword sweep is repeated with the statusword arriving in TPDO frames, in shuffled order.")
 ASSUMPTIONS = ["'in finitely many steps' is judged as <= 12 controlword writes", "library time-outs are raised so that progress is logical",
                "a RuntimeError time-out under threaded PDO transport is inconclusive unless the drive log shows it reached and reported the target"]
 REQUIRED = {"statuswords_decoded": 65536, "transition_cases": 150, "mode_cases": 100}
